@@ -517,7 +517,7 @@ func init() {
 		Rule: "one case = one history (60/160 blocks, genesis groups of 1..4, electing period 15 s, acceptance timeout 6 s or 0) with execution-layer add requests (fresh candidates, some registered under a wrong key hash, re-adds) and remove requests (everybody, the proposer, one voter once or twice, pending/boarding candidates, unknown addresses), MsgNewVoter in 9 proof variants (valid; bound to another chain, epoch, registration height or proposer; ECDSA or BLS proof by another key; another BLS key; swapped proofs) on candidates in every status, proposer acceptances (right and wrong epoch), quorum votes incl. one that counts a voter who boards only at the next election, and block times placed at period-1ns, period, timeout-1ns, timeout, timeout+1ns; " +
 			"after every commit: one proposer that is an activated/off-boarding member and not among the voters, members distinct with records, group never empty, Query/Relayer consistent; admission only with ground-truth-valid proofs; a boarding voter is not listed or counted before an election; epoch += 1 exactly when elapsed >= period or (not accepted and timeout != 0 and elapsed >= timeout); FinalizeBlock never fails. Non-trivial = every block; distinct = (members, election due, time edge, adds, removes) and registration variants.",
 		Assume: []string{"'proposer accepted' at the end of a block = accepted before, or any relayer message of the proposer succeeded in the block"},
-		Cases:  func(tier string) int { return map[string]int{"quick": 32, "thorough": 200}[tier] },
+		Cases:  func(tier string) int { return map[string]int{"quick": 48, "thorough": 200}[tier] },
 		Run:    func(c *vc.Ctx, i int) { c16History(c, i) },
 	})
 }
